@@ -9,6 +9,16 @@ def shape_of(text):
     return hashlib.sha1(t.encode()).hexdigest()[:12]
 
 
+def shape_cases(n, seed):
+    """Degenerate control-flow programs (qv/shapes.py): a seeded sample of n (all when n is None)."""
+    from .. import shapes
+    allp = shapes.programs()
+    if n is None or n >= len(allp):
+        return [{'src': 'shape', 'idx': i} for i in range(len(allp))]
+    idx = {t: i for i, (t, _x) in enumerate(allp)}
+    return [{'src': 'shape', 'idx': idx[t]} for t, _x in shapes.sample(n, seed)]
+
+
 def gen_cases_corpus(n_gen, seed, opts=None, with_repo=True, base=0, tag='gen'):
     from .. import cases
     out = []
